@@ -308,6 +308,49 @@ def mutate_sessions(rng, tier, n=30):
     return ss
 
 
+def same_size_edit_sessions(rng, tier, n=24):
+    """history: an object is canonicalized, then edited in place *without changing its atom or bond count* (a charge, a bond type, a
+    coordinate, a bond moved elsewhere), then canonicalized again: the second result is the object as it now stands under a renaming
+    (a result remembered per object and revalidated by size only would be stale)"""
+    ss = []
+    fam = [g for name, g in gen.symmetric_families(rng) if 3 <= g.number_of_nodes() <= 14]
+    for i in range(n if tier == "quick" else n * 8):
+        g = gen.random_molecule(rng, 7, label_p=0.2) if i % 3 else copy.deepcopy(rng.choice(fam))
+        if g.number_of_nodes() < 2:
+            continue
+        S = Session(f"samesize{i}")
+        o = S.input(g)
+        c = S.canon(o)
+        if c:
+            S.ser(c)
+        live = S.objs[o]
+        for rep in range(2):
+            kind = rng.choice(["chg", "bond_type", "coord", "move"])
+            edges = list(live.edges)
+            free = [(x, y) for x in live.nodes for y in live.nodes if x < y and not live.has_edge(x, y)]
+            if kind == "bond_type" and edges:
+                a, b = rng.choice(edges)
+                live.edges[a, b]["bond_type"] = live.edges[a, b].get("bond_type", 1) % 3 + 1
+            elif kind == "move" and edges and free:
+                a, b = rng.choice(edges)
+                d = dict(live.edges[a, b])
+                live.remove_edge(a, b)
+                x, y = rng.choice(free)
+                live.add_edge(x, y, **d)
+            elif kind == "coord":
+                a = rng.choice(list(live.nodes))
+                live.nodes[a]["x_coord"] = float(live.nodes[a].get("x_coord", 0.0)) + 1.5
+            else:
+                a = rng.choice(list(live.nodes))
+                live.nodes[a]["chg"] = live.nodes[a].get("chg", 0) + rng.choice([1, -1, 2])
+            S.ev.append({"op": "mutate", "obj": o, "g": record.project(live), "newcls": 520000 + 10 * o + rep})
+            c2 = S.canon(o)
+            if c2:
+                S.ser(c2)
+        ss.append(S)
+    return ss
+
+
 def text_nearmiss_sessions(rng, tier):
     """files of different molecules (a label dropped, moved to another element, a radical removed, a bond removed), spelled with
     continuation lines / several property lines: the pipeline must keep them apart"""
@@ -943,6 +986,7 @@ def c12(out, tier, rng):
     ss = enumerated_sessions(out, tier, rng, parse_back=False, repeat=True, quick_limit=100)
     ss += pool_sessions(rng, tier, k=2, feedback=True, repeat=True, nonidentity=True, parse_back=False, n_random=40)
     ss += mutate_sessions(rng, tier, n=20)
+    ss += same_size_edit_sessions(rng, tier)
     ss += history_sessions(rng, tier)
     ss += stale_code_sessions(rng, tier)
     with record.debug_logging():         # the same calls inside an application that logs at DEBUG level
